@@ -259,7 +259,7 @@ func GenRequests(g *tape.Stream, fg *tape.Stream, s *Setup, p *Profile) [][]*Req
 				if fg.Chance(p.WFaultPm) {
 					q.WPlan = append(q.WPlan, WFault{At: fg.Intn(3), Kind: 1 + fg.Intn(2), Keep: fg.Intn(6)})
 				}
-				q.CtxErr = fg.Weighted(3, 2, 1)
+				q.CtxErr = fg.Weighted(3, 2, 1, 2)
 				if !AutoMode && fg.Chance(p.CancelPm) {
 					q.PlannedCancel = fg.Intn(40)
 				}
